@@ -789,7 +789,7 @@ def atomic_store(ctx):
     r = ctx.args[0]
     _atomic(ctx, r, _atomic_bits(ctx.callee))
     ctx.ex.store(ctx.st, r.cell, r.path, Agg('Atomic', {0: ctx.args[1]}))
-    ctx.st.trace.append(('atomic.store',))
+    ctx.st.trace.append(('atomic.store', r.cell, r.path))
     return UNIT
 
 
